@@ -95,6 +95,23 @@ Conc(s) ==
     [] s = "vb"   -> <<BS,"v","e","r","b","|","a","%","|">>          \* \verb|a%|
     [] s = "vrb"  -> <<BS,"b","e","g","i","n","{","v","e","r","b","a","t","i","m","}",NL,"a","%",NL,BS,"e","n","d","{","v","e","r","b","a","t","i","m","}">>
     [] s = "vrb2" -> <<BS,"b","e","g","i","n"," ","{","v","e","r","b","a","t","i","m","}","a","%",BS,"e","n","d","{","v","e","r","b","a","t","i","m","}">>
+    \* extraction (C18): a listed macro that is otherwise unknown; comments containing macros
+    [] s = "xo"  -> <<BS,"x","f","o","o","{">>
+    [] s = "cmf" -> <<"%",BS,"f","o","o","t","n","o","t","e","{","j","}",NL>>
+    [] s = "cmu" -> <<"%",BS,"f","o","o",NL>>
+    \* injected faults (C08)
+    [] s = "Fim"  -> <<"$","y",NL,NL>>
+    [] s = "FimE" -> <<"$","y">>
+    [] s = "Fdm"  -> <<BS,"[","y",NL,NL>>
+    [] s = "FdmE" -> <<"$","$","y">>
+    [] s = "FeqE" -> <<BS,"b","e","g","i","n","{","e","q","u","a","t","i","o","n","}","y">>
+    [] s = "FargE" -> <<BS,"t","e","x","t","c","o","l","o","r","{","k","}","{","a">>
+    [] s = "FoptE" -> <<BS,"c","i","t","e","[","a">>
+    [] s = "FvbE" -> <<BS,"v","e","r","b","|","a">>
+    [] s = "FveE" -> <<BS,"b","e","g","i","n","{","v","e","r","b","a","t","i","m","}","a">>
+    [] s = "Fsk"  -> <<"%","%","%"," ","L","T","-","S","K","I","P","-","B","E","G","I","N",NL>>
+    [] s = "Facc" -> <<BS,"'","1">>
+    [] s = "Flt"  -> <<BS,"L","T","i","n","p","u","t","{","n","o","f","i","l","e",".","t","e","x","}">>
     \* maths (C10, C11)
     [] s = "mo"  -> <<"$">> [] s = "mc" -> <<"$">> [] s = "mo2" -> <<BS,"(">> [] s = "mc2" -> <<BS,")">>
     [] s = "my"  -> <<"y">> [] s = "mw" -> <<"x">> [] s = "mpl" -> <<"+">> [] s = "meq" -> <<"=">>
@@ -141,10 +158,14 @@ ReplChar(s) ==
 ReplSyms == {"tie","nd","md","lq","rq","thin","pct","amp","dol","hsh","usc","lbr","rbr"}
 
 OpenKind(s) ==     \* symbols that open a braced argument / group
-  CASE s = "ob" -> "grp" [] s = "add" -> "arg" [] s = "fbx" -> "arg" [] s = "tc" -> "arg"
+  CASE s = "xo" -> "xo" [] s = "ob" -> "grp" [] s = "add" -> "arg" [] s = "fbx" -> "arg" [] s = "tc" -> "arg"
     [] s = "fn" -> "fn" [] s = "cap" -> "fn" [] s = "sec" -> "sec" [] s = "sub" -> "sec"
     [] s \in {"uB","uC","uD","uE","uF","uG"} -> "marg" [] s = "uCo" -> "mopt" [] s = "cto" -> "copt"
-OpenSyms == {"ob","add","fbx","tc","fn","cap","sec","sub","uB","uC","uCo","uD","uE","uF","uG","cto"}
+FaultSyms == {"Fim","FimE","Fdm","FdmE","FeqE","FargE","FoptE","FvbE","FveE","Fsk","Facc","Flt"}
+EofFaults == {"FimE","FdmE","FeqE","FargE","FoptE","FvbE","FveE"}
+\* offset of the problem relative to the start of the symbol
+FaultOff(s) == CASE s = "FargE" -> 13 [] s = "FoptE" -> 5 [] OTHER -> 0
+OpenSyms == {"xo","ob","add","fbx","tc","fn","cap","sec","sub","uB","uC","uCo","uD","uE","uF","uG","cto"}
 MathOpen == {"mo", "mo2"}
 DispOpen == {"ba", "bq", "bd", "bdd"}
 MathBody == {"my","mw","mpl","meq","mal","mfr","msb","msp","mti","mdt","mcm","mob","mcb"}
@@ -156,6 +177,7 @@ UseSyms == {"uA","uB","uBt","uC","uCo","uD","uE","uF","uG"}
 MacroOf(s) == CASE s \in {"dA","uA"} -> "ma" [] s \in {"dB","rB","uB","uBt"} -> "mb" [] s \in {"dC","uC","uCo"} -> "mc"
                 [] s \in {"dD","uD"} -> "md" [] s \in {"dE","uE"} -> "me" [] s \in {"dF","uF"} -> "mf" [] s \in {"dG","uG"} -> "mg"
 MacroNames == {"ma","mb","mc","md","me","mf","mg"}
+MacroChars(m) == <<BS, "m", CASE m = "ma" -> "a" [] m = "mb" -> "b" [] m = "mc" -> "c" [] m = "md" -> "d" [] m = "me" -> "e" [] m = "mf" -> "f" [] m = "mg" -> "g">>
 \* body of a definition: elements <<"t", ch>> (text), <<"a", k>> (parameter), <<"c", macro, elements>> (nested call with one argument)
 BodyOf(d) == CASE d = "dA" -> << <<"t","m">>, <<"t","n">> >>
                [] d = "dB" -> << <<"t","m">>, <<"a",1>>, <<"t","n">> >>
@@ -171,7 +193,7 @@ EnvOf(s) == CASE s \in {"bi","ei"} -> "itemize" [] s \in {"be","ee"} -> "enumera
               [] s \in {"bu","eu"} -> "unk" [] s \in {"bl","el"} -> "lstlisting" [] s \in {"bm","em"} -> "minipage"
 
 AllSyms == Visible \cup ReplSyms \cup OpenSyms \cup BeginSyms \cup EndSyms \cup
-   {"sp","nl","tab","cm","lb","ix","uk","uk2","cb","skp","par","im","imp","ref","cite","skb","ske","q","fnq","it","vb","vrb","vrb2","ocb","ctc","rbk","up","uA","uBt"} \cup DefSyms \cup MathSyms
+   {"sp","nl","tab","cm","lb","ix","uk","uk2","cb","skp","par","im","imp","ref","cite","skb","ske","q","fnq","it","vb","vrb","vrb2","ocb","ctc","rbk","up","uA","uBt","cmf","cmu"} \cup DefSyms \cup MathSyms \cup FaultSyms
 
 (***************************************************************************)
 (* Reference state                                                         *)
@@ -181,7 +203,7 @@ Frame(k, flow, start) == [k |-> k, flow |-> flow, start |-> start, has |-> FALSE
 
 St0 == [src |-> <<>>, ctx |-> <<>>, flows |-> << <<>> >>, spans |-> << <<0,0>> >>,
         unk |-> <<>>, nfml |-> 0, cw |-> FALSE, vis |-> FALSE, feat |-> {},
-        ls |-> "", defs |-> [m \in MacroNames |-> "none"], fml |-> <<>>, eqs |-> <<>>, didx |-> 0]
+        ls |-> "", mode |-> "normal", drop |-> {}, fault |-> <<>>, ended |-> FALSE, defs |-> [m \in MacroNames |-> "none"], fml |-> <<>>, eqs |-> <<>>, didx |-> 0]
 
 Top(st) == st.ctx[Len(st.ctx)]
 CurFlow(st) == IF st.ctx = <<>> THEN 1 ELSE Top(st).flow
@@ -233,10 +255,17 @@ AllowedCtx(st, s) ==
   \* a tie or thin space on an otherwise blank line is white space for the line-removal pass
   \* (excluded from C02/C06, see the statement of C06): only directly after a visible character
   /\ s \in {"tie","thin"} => st.vis
-  /\ s = "cb" => st.ctx # <<>> /\ Top(st).k \in {"grp","arg","fn","sec","marg"}
+  /\ s = "cb" => st.ctx # <<>> /\ Top(st).k \in {"grp","arg","fn","sec","marg","hid"}
   \* (the full stop added to a heading is attached to the last token of the heading; if that is the closing $ of a
   \*  formula it maps into the formula - legitimate, but it would blur C10's "text of the formula")
   /\ (s = "cb" /\ st.ctx # <<>> /\ Top(st).k = "sec") => st.ls \notin {"mc", "mc2"}
+  /\ s \in FaultSyms => st.ctx = <<>> /\ st.fault = <<>>
+  /\ (st.fault # <<>> /\ st.fault[1].sym = "Fsk") => s \notin {"skb", "ske"}     \* a later END comment would close the region
+  \* extraction mode (C18): listed macros are \footnote and \xfoo; they are not put into arguments of other known macros
+  \* (which are skipped unexpanded), and their arguments hold plain material only
+  /\ (st.mode = "extr" /\ s \in {"fn", "xo"}) => ~InKind(st, "arg") /\ ~InKind(st, "sec") /\ ~InKind(st, "hid")
+  /\ (st.mode = "extr" /\ InKind(st, "fn")) => s \in Visible \cup {"sp","nl","ob","cb","uk","cm","im","imp","cmf","tie","nd"}
+  /\ s = "xo" => ~InKind(st, "fn") /\ ~InKind(st, "sec")
   /\ s = "ocb" => st.ctx # <<>> /\ Top(st).k = "mopt"
   /\ s = "ctc" => st.ctx # <<>> /\ Top(st).k = "copt"
   /\ s = "rbk" => Len(st.ctx) >= 2 /\ Top(st).k = "grp" /\ st.ctx[Len(st.ctx)-1].k \in {"copt", "mopt"}
@@ -257,6 +286,7 @@ AllowedCtx(st, s) ==
 
 Allowed(st, s) ==
   \* a letter directly after a control word would change the macro name
+  /\ ~st.ended
   /\ (st.cw => ~IsMacroChar(Conc(s)[1]))
   \* adjacent symbols must not fuse into another token ($$, ---, ```, ''')
   /\ (st.src # <<>> => LET l == st.src[Len(st.src)] IN ~(l = Conc(s)[1] /\ l \in {"$", "-", "`", "'"}))
@@ -324,8 +354,8 @@ Step(st, s) ==
     [] s = "nl"  -> Emit(s1, <<It("ws", "", 0, 0, 1)>>)
     [] s = "cm"  -> Emit(s1, <<Lay("cm")>>)
     [] s \in {"lb","ix","skp"} -> Emit(s1, <<Lay("v")>>)
-    [] s = "uk"  -> AddUnk(Emit(s1, <<Lay("cw")>>), "\\foo")
-    [] s = "uk2" -> AddUnk(Emit(s1, <<Lay("cw")>>), "\\bar")
+    [] s = "uk"  -> AddUnk(Emit(s1, <<Lay("cw")>>), <<BS,"f","o","o">>)
+    [] s = "uk2" -> AddUnk(Emit(s1, <<Lay("cw")>>), <<BS,"b","a","r">>)
     [] s = "par" -> Emit(s1, <<It("g", "ws", p0+1, p1, 0), Lay("pb"), Lay("cw")>>)
     [] s \in {"im","imp"} ->
          \* one placeholder; the closing punctuation mark of the formula is kept
@@ -342,14 +372,21 @@ Step(st, s) ==
                                        Lay("x"), It("g", "ws", p0+1, p1, 0), Lay("pb")>>), "%")
     [] s = "vrb2" -> NoteText(Emit(s1, <<It("g", "ws", p0+1, p1, 0), Lay("pb"), Lay("x"), It("c", "a", p0+18, p0+18, 0), It("c", "%", p0+19, p0+19, 0),
                                        Lay("x"), It("g", "ws", p0+1, p1, 0), Lay("pb")>>), "%")
+    [] s \in {"cmf", "cmu"} -> Emit(s1, <<Lay("cm")>>)
+    [] s \in FaultSyms ->
+         \* one injected fault: the complete mark must appear, mapped to the place of the problem
+         LET f == p0 + FaultOff(s)
+             keep == IF s = "FargE" THEN <<It("c", "a", p1, p1, 0)>> ELSE IF s = "FoptE" THEN <<It("c", "a", p1, p1, 0)>> ELSE <<>> IN
+         [Emit(s1, <<Lay("x"), It("g", "mark", p0+1, p1, 1)>> \o keep \o <<Lay("x")>>)
+            EXCEPT !.fault = <<[f |-> f, end |-> p1, sym |-> s]>>, !.ended = s \in EofFaults]
     [] s \in DefSyms -> [Emit(s1, <<Lay("v")>>) EXCEPT !.defs[MacroOf(s)] = s]
     [] s = "up" -> Emit(s1, <<Lay("v")>>)
     [] s = "rbk" -> NoteText(Emit(s1, <<It("c", "]", p0+1, p0+1, 0)>>), "]")
     [] s = "uA" ->
-         IF st.defs["ma"] = "none" THEN AddUnk(Emit(s1, <<Lay("cw")>>), "\\ma")
+         IF st.defs["ma"] = "none" THEN AddUnk(Emit(s1, <<Lay("cw")>>), <<BS,"m","a">>)
          ELSE NoteText(Emit(Feat(s1, "umacro"), <<Lay("x")>> \o ExpandBody(st.defs, st.defs["ma"], <<>>, p0+1, p1, 3) \o <<Lay("x"), Lay("cw")>>), "n")
     [] s = "uBt" ->
-         IF st.defs["mb"] = "none" THEN NoteText(AddUnk(Emit(s1, <<Lay("cw"), It("ws","",0,0,0), It("c", "b", p1, p1, 0)>>), "\\mb"), "b")
+         IF st.defs["mb"] = "none" THEN NoteText(AddUnk(Emit(s1, <<Lay("cw"), It("ws","",0,0,0), It("c", "b", p1, p1, 0)>>), <<BS,"m","b">>), "b")
          ELSE NoteText(Emit(Feat(Feat(s1, "umacro"), "single-token-arg"),
                    <<Lay("x")>> \o ExpandBody(st.defs, st.defs["mb"], << <<It("c", "b", p1, p1, 0)>> >>, p0+1, p1, 3) \o <<Lay("x")>>), "n")
     [] s = "ocb" ->
@@ -368,15 +405,24 @@ Step(st, s) ==
     [] s \in DispOpen -> [s1 EXCEPT !.ctx = Append(@, [Frame("deq", CurFlow(st), p0) EXCEPT !.nm = s])]
     [] s = "skb" -> [s1 EXCEPT !.ctx = Append(@, Frame("skip", CurFlow(st), p0))]
     [] s \in OpenSyms ->
-         LET k == OpenKind(s) IN
-         IF k = "fn" THEN
+         LET k0 == OpenKind(s)
+             \* extraction mode: \footnote and \xfoo are listed; other known macros with arguments are skipped with their arguments
+             k == IF k0 = "xo" THEN (IF st.mode = "extr" THEN "fn" ELSE "grp")
+                  ELSE IF st.mode = "extr" /\ (s = "cap" \/ k0 \in {"arg", "sec"}) THEN "hid" ELSE k0 IN
+         IF s = "xo" /\ st.mode # "extr" THEN
+            [AddUnk(Emit(s1, <<Lay("v")>>), <<BS,"x","f","o","o">>) EXCEPT !.ctx = Append(@, Frame("grp", CurFlow(st), p0))]
+         ELSE IF k = "hid" THEN
+            LET nf == Len(st.flows) + 1 IN
+            [s1 EXCEPT !.flows = Append(@, <<>>), !.spans = Append(@, <<p0+1, 0>>), !.drop = @ \cup {nf},
+                       !.ctx = Append(@, Frame("hid", nf, p0))]
+         ELSE IF k = "fn" THEN
             LET nf == Len(st.flows) + 1 IN
             [Emit(IF InKind(st, "sec") THEN Feat(s1, "detached-in-heading") ELSE s1, <<Lay("v")>>) EXCEPT !.flows = Append(@, <<>>), !.spans = Append(@, <<p0+1, 0>>),
                                            !.ctx = Append(@, Frame("fn", nf, p0))]
          ELSE IF k \in {"marg", "mopt"} THEN
             IF st.defs[MacroOf(s)] = "none" THEN
                \* use before the definition: an unknown macro, its braced argument stays (as a group)
-               [AddUnk(Emit(s1, <<Lay("v")>>), "\\" \o MacroOf(s)) EXCEPT !.ctx = Append(@, Frame(IF k = "marg" THEN "grp" ELSE "ubr", CurFlow(st), p0))]
+               [AddUnk(Emit(s1, <<Lay("v")>>), MacroChars(MacroOf(s))) EXCEPT !.ctx = Append(@, Frame(IF k = "marg" THEN "grp" ELSE "ubr", CurFlow(st), p0))]
             ELSE [Feat(s1, "umacro") EXCEPT !.ctx = Append(@, [Frame(k, CurFlow(st), p0) EXCEPT !.nm = MacroOf(s), !.mark = Len(st.flows[CurFlow(st)])])]
          ELSE IF k = "copt" THEN
             [s1 EXCEPT !.ctx = Append(@, [Frame(k, CurFlow(st), p0) EXCEPT !.mark = Len(st.flows[CurFlow(st)])])]
@@ -406,7 +452,7 @@ Step(st, s) ==
              cnt == Len(SelectSeq(st.ctx, LAMBDA f : f.k = "env" /\ f.last = e)) IN
          IF e = "lstlisting" THEN [Emit(s1, <<It("g", "ws", p0+1, p1, 0), Lay("pb")>>) EXCEPT !.ctx = Append(@, Frame("rm", CurFlow(st), p0))]
          ELSE IF e = "minipage" THEN [Emit(s1, <<It("g", "ws", p0+1, p1, 0), Lay("pb")>>) EXCEPT !.ctx = Append(@, fr)]
-         ELSE IF e = "unk" THEN [AddUnk(Emit(s1, <<Lay("v")>>), "unk") EXCEPT !.ctx = Append(@, fr)]
+         ELSE IF e = "unk" THEN [AddUnk(Emit(s1, <<Lay("v")>>), <<"u","n","k">>) EXCEPT !.ctx = Append(@, fr)]
          ELSE [Emit(s1, <<Lay("v")>>) EXCEPT !.ctx = Append(@, [fr EXCEPT !.start = cnt])]   \* start reused: nesting level
     [] s \in EndSyms ->
          LET e == EnvOf(s)
@@ -495,21 +541,23 @@ Seps(flow, z) ==
 (***************************************************************************)
 \* detached flows follow the main flow in order of appearance; each is framed
 \* by generated white space that maps into the construct's span
-RECURSIVE Detached(_, _, _)
-Detached(flows, spans, i) ==
+RECURSIVE Detached(_, _, _, _)
+Detached(flows, spans, i, drop) ==
   IF i > Len(flows) THEN <<>>
-  ELSE LET body == Seps(flows[i], Z0)
-           has == \E j \in 1..Len(body) : body[j].t \in {"c","f"} \/ (body[j].t = "g" /\ body[j].n = 1) IN
-       (IF has THEN <<It("g", "ws", spans[i][1], spans[i][2], 0)>> \o body \o <<It("g", "ws", spans[i][1], spans[i][2], 0)>>
-        ELSE body)
-       \o Detached(flows, spans, i+1)
+  ELSE IF i \in drop THEN Detached(flows, spans, i+1, drop)
+  ELSE LET body == Seps(flows[i], Z0) IN
+       \* (the frame is only white space: permitted wherever it maps into the construct, required nowhere)
+       <<It("g", "ws", spans[i][1], spans[i][2], 0)>> \o body \o <<It("g", "ws", spans[i][1], spans[i][2], 0)>>
+       \o Detached(flows, spans, i+1, drop)
 
 Final(st) == [src |-> st.src,
-              items |-> Seps(st.flows[1], Z0) \o Detached(st.flows, st.spans, 2),
+              items |-> (IF st.mode = "extr" THEN <<>> ELSE Seps(st.flows[1], Z0)) \o Detached(st.flows, st.spans, 2, st.drop),
+              fault |-> st.fault,
               unk |-> st.unk,
               nflows |-> Len(st.flows), feat |-> st.feat, fml |-> st.fml, eqs |-> st.eqs]
 
 Ref(doc) == Final(Run(St0, doc))
+RefMode(doc, mode) == Final(Run([St0 EXCEPT !.mode = mode], doc))
 RECURSIVE ConcAll(_)
 ConcAll(doc) == IF doc = <<>> THEN <<>> ELSE Conc(Head(doc)) \o ConcAll(Tail(doc))
 =============================================================================
